@@ -184,6 +184,10 @@ fn for_stmt(p: &mut Parser<'_>, m: Marker) {
         expressions::set_expression(p);
     } else if p.at(T!['[']) {
         expressions::range_expr(p);
+    } else if p.at(IDENT) && p.nth(1) == IDENT {
+        // A bare identifier followed by a body without curlies that starts with a name,
+        // as in `for int i in arr x q;`. The two names are not a gate call.
+        expressions::atom::identifier(p);
     } else {
         expressions::expr(p);
     }
